@@ -548,6 +548,17 @@ func runDHCP(c *wk.Ctx) {
 		ops := make([]dop, 30)
 		for k := range ops {
 			ops[k] = randDop(r)
+			// keep transactions going: a DISCOVER is usually followed by the matching selecting REQUEST, an ACK by a renewal
+			if k > 0 && r.Intn(10) < 6 {
+				switch prev := ops[k-1]; prev.K {
+				case "disc", "discrep":
+					ops[k] = dop{K: "sel", C: prev.C, P: 0}
+				case "sel":
+					if prev.P == 0 && r.Intn(2) == 0 {
+						ops[k] = dop{K: []string{"renew", "reboot"}[r.Intn(2)], C: prev.C, P: 0}
+					}
+				}
+			}
 		}
 		run(idx, ops, "random", r)
 	}
